@@ -239,6 +239,11 @@ def run(chk: core.Check) -> None:
 
                     if not doc.body.get_tables():
                         doc.body.append(Table("T1", width=1, height=1))
+                    if rng.random() < 0.3:
+                        # a table that names no style, in a document that received a default style of the table family
+                        hist[-1] = ["set_table_displayed", "table without style, default table style present"]
+                        doc.merge_styles_from(Document(pkg.TEMPLATE_DIR / "lpod_styles.odt"))
+                        doc.body.get_tables()[0].style = None
                     doc.set_table_displayed(0, rng.random() < 0.5)
                 except Exception as e:  # noqa: BLE001
                     chk.fail({**case, "exception": repr(e), "clause": "raises"}, f"set_table_displayed raised {type(e).__name__}")
@@ -247,6 +252,13 @@ def run(chk: core.Check) -> None:
                 chk.case((name, repr(hist)), nontrivial=True)
                 if st is None or doc.get_style("table", st.name) is None:
                     chk.fail({**case, "clause": "lookup"}, "set_table_displayed: the style of the table is not found by the document lookup")
+                    break
+                # the style the table received is an automatic style: a style:style element (a copy of the family's DEFAULT style is
+                # not one: C13-F8, a table without style name in a document that has a default table style)
+                kinds = [it[0] for it in (snapshot(doc)["content:automatic-styles"] or []) if it[1] == "table" and it[2] == st.name]
+                if kinds != ["style"]:
+                    chk.fail({**case, "clause": "container", "table_style": st.name, "elements_of_that_name_among_the_automatic_styles": kinds},
+                             "set_table_displayed: the style given to the table is not one style:style element among the automatic styles of content.xml")
                     break
             else:
                 hist.append(["delete_styles"])
